@@ -56,7 +56,6 @@ CHECK_DEADLOCK FALSE
 _W = None
 _K = None
 _HL = "default"
-_VIEWS = ()
 
 
 def _init_worker():
@@ -65,11 +64,12 @@ def _init_worker():
     _W = World(handlers=_HL)
 
 
-def _crawl_case(case):
+def _crawl_case(job):
     from harness import c05_lib as L
+    case, views = job
     L.materialise(_W, case, _K.hi_byte)
     out = []
-    for p in _VIEWS:
+    for p in views:
         events, concrete = L.crawl(_W, p, _K)
         out.append((p, events, concrete))
     return out
@@ -81,7 +81,7 @@ def model_check(chk, t, k):
                               "Views": t["views"], "HLs": t["hls"]}))
     files["MC_C05_run.cfg"] = cfg
     res = tlc.check_model("MC_C05", "MC_C05_run.cfg", extra_files=files, dump=True, timeout=2400)
-    cases, deviations, computed = {}, {}, 0
+    cases, deviations, computed, scope = {}, {}, 0, {}
     try:
         if res["inv_violations"]:
             chk.model_violation("MC_C05", res["inv_violations"], res["out"][-3000:])
@@ -90,18 +90,23 @@ def model_check(chk, t, k):
             cases[json.dumps(c, sort_keys=True)] = dict(c)
             if st["res"]["done"]:
                 computed += 1
+                scope[(json.dumps(c, sort_keys=True), str(st["p"]))] = bool(st["res"]["scope"])
                 for f in st["res"]["fail"]:
                     deviations[f[2]] = deviations.get(f[2], 0) + 1
     finally:
         tlc.cleanup(res)
-    return res, [cases[x] for x in sorted(cases)], deviations, computed
+    return res, [cases[x] for x in sorted(cases)], deviations, computed, scope
 
 
-def run_crawls(cases, t, k, hl, views):
-    global _HL, _K, _VIEWS
+def run_crawls(cases, t, k, hl, views, scope=None):
+    """Crawl every case through every view in scope (scope: (case json, view) -> bool from the model; names a
+    protocol cannot express are outside the property)."""
+    global _HL, _K
     from harness import c05_lib as L
-    _HL, _K, _VIEWS = hl, k, tuple(views)
-    results = L.pool_map(_crawl_case, cases, _init_worker)
+    _HL, _K = hl, k
+    jobs = [(c, [p for p in views if scope is None or scope.get((json.dumps(c, sort_keys=True), p), True)])
+            for c in cases]
+    results = L.pool_map(_crawl_case, jobs, _init_worker)
     traces = []
     for case, per in zip(cases, results):
         for p, events, concrete in per:
@@ -143,7 +148,7 @@ def main(chk, replay=None):
     t = TIERS[chk.tier]
     k = L.Consts(hi_byte=t["hi"][0])
     # 1. design model, exhaustive within bounds; the cases it explored
-    res, cases, deviations, computed = model_check(chk, t, k)
+    res, cases, deviations, computed, scope = model_check(chk, t, k)
     if replay:
         with open(replay) as fp:
             rp = json.load(fp)
@@ -169,7 +174,7 @@ def main(chk, replay=None):
     traces = []
     for hl, views, sub, hi in plans:
         kk = L.Consts(hi_byte=hi)
-        part = run_crawls(sub, t, kk, hl, views)
+        part = run_crawls(sub, t, kk, hl, views, scope)
         for tr in part:
             tr["hi_byte"] = hi
         tv = validate(part, kk)
